@@ -63,6 +63,11 @@ Prefixes ==
       <<o("h1", "B", "d1"), w("h1", "c0"), cl("h1"), o("h2", "A", "mp"), w("h2", "c0"), cad("h2"), om("h3", "B", "d1", "ReOpenExisting")>>,
       <<o("h1", "A", "d1"), w("h1", "c1"), o("h2", "B", "mp"), cl("h1"), cl("h2"), cad("h2")>>,
       \* calls through a handle whose bucket was deleted through another one, then calls through a third
+      \* one of two feeds of a collection is stopped; the other one - checkpointed - goes on and is stopped and resumed later
+      <<o("h1", "A", "mem"), sf("h1", "c0", "f1", "live"), sf("h1", "c0", "f2", "ckpt"), Act("StopFeed", "h1", "-", "-", "-", "-", "f1", "-"),
+        w("h1", "c0"), w("h1", "c0")>>,
+      <<o("h1", "B", "d1"), o("h2", "B", "d1"), sf("h2", "c1", "f1", "live"), sf("h1", "c1", "f2", "ckpt"), w("h2", "c1"),
+        Act("StopFeed", "h1", "-", "-", "-", "-", "f1", "-"), w("h2", "c1"), w("h1", "c1")>>,
       \* (the handles have been used before, so they hold their collections)
       <<o("h1", "A", "mem"), o("h2", "A", "mem"), o("h3", "A", "mem"), w("h2", "c0"), w("h3", "c0"), cad("h1"), sf("h2", "c0", "f1", "dump"), w("h3", "c0")>>,
       <<o("h1", "B", "d1"), o("h2", "B", "d1"), o("h3", "B", "d1"), w("h2", "c1"), w("h3", "c1"), w("h3", "c0"), cad("h1"), sf("h2", "c1", "f1", "dump"),
